@@ -16,7 +16,7 @@ import (
 	"gonum.org/v1/gonum/verifx/vrt"
 )
 
-var mode = flag.String("mode", "all", "all | comma list of workloads (exh-d, exh-u, rnd-pr, rnd-bc, rnd-spec, rnd-q, rnd-mux, fixed, hits-edgeless)")
+var mode = flag.String("mode", "all", "all | comma list of workloads (exh-d, exh-u, rnd-pr, rnd-bc, rnd-spec, rnd-q, rnd-mux, rnd-hist, fixed, hits-edgeless)")
 
 func main() { vrt.Main("C15", run) }
 
@@ -72,6 +72,7 @@ func run(c *vrt.Ctx) {
 	timed("rnd-spec", func() { rndSpectral(c) })
 	timed("rnd-q", func() { rndCommunity(c) })
 	timed("rnd-mux", func() { rndMultiplex(c) })
+	timed("rnd-hist", func() { rndHistory(c) })
 	calibMu.Lock()
 	for k, v := range calibs {
 		c.Note("calib."+k, v)
@@ -187,6 +188,9 @@ func exhDirected(c *vrt.Ctx) {
 				}
 				checkQ(k, cc, ps, r, pickRep(i+gi))
 				checkModularize(k, cc, r, pickRep(i+gi+1))
+				if (i+gi)%4 == 0 {
+					checkLouvainHistory(k, cc, r)
+				}
 			}
 			k.done()
 		})
@@ -247,6 +251,9 @@ func exhUndirected(c *vrt.Ctx) {
 				}
 				checkQ(k, cc, ps, r, pickRep(i+gi))
 				checkModularize(k, cc, r, pickRep(i+gi+1))
+				if (i+gi)%4 == 0 {
+					checkLouvainHistory(k, cc, r)
+				}
 			}
 			k.done()
 		})
@@ -487,6 +494,110 @@ func rndMultiplex(c *vrt.Ctx) {
 		k.ids = "mixed"
 		checkQ(k, cc, randomPartitions(cc.n(), planted, r), r, pickRep(i))
 		checkModularize(k, cc, r, pickRep(i/2))
+		k.done()
+	})
+	c.Count("cases."+wl, int64(total))
+}
+
+// historyCase draws a case for the result-object history check: all four
+// variants in rotation, shapes that give hierarchies of three and more levels
+// (rings of cliques, planted partitions) next to the general random shapes.
+func historyCase(r *vrt.Rand, i int) *cmCase {
+	dir := i%2 == 1
+	multiplex := (i/2)%2 == 1
+	depth := 1
+	if multiplex {
+		depth = 1 + r.Intn(3)
+	}
+	var base *G
+	scheme := r.Intn(numWSchemes - 1) // no zero weights: keep hierarchies deep
+	weighted := r.Bool()
+	switch r.Intn(4) {
+	case 0, 1:
+		sz := 3 + r.Intn(3)
+		kq := 4 + r.Intn(9)
+		for kq*sz > 60 {
+			kq--
+		}
+		n, es := genCliqueRing(kq, sz, dir, r)
+		base = newG(n, dir, weighted)
+		base.Kind = "clique-ring"
+		for _, e := range es {
+			base.Set(e[0], e[1], drawWeight(r, scheme))
+		}
+	case 2:
+		n := 12 + r.Intn(49)
+		es, _ := genPlanted(n, 3+r.Intn(6), dir, r.PickFloat(0.6, 0.9, 1), r.PickFloat(0.01, 0.04), r)
+		base = newG(n, dir, weighted)
+		base.Kind = "planted"
+		for _, e := range es {
+			base.Set(e[0], e[1], drawWeight(r, scheme))
+		}
+	default:
+		base = randomModel(r, dir, weighted, scheme, 40)
+	}
+	assignIDs(base, r, r.Intn(4))
+	layers := []*G{base}
+	var weights []float64
+	if multiplex {
+		switch r.Intn(3) {
+		case 0:
+			weights = nil
+		default:
+			weights = make([]float64, depth)
+			for l := range weights {
+				weights[l] = r.PickFloat(0.5, 1, 2)
+			}
+		}
+		for l := 1; l < depth; l++ {
+			// the same structure with some edges dropped and weights redrawn
+			m := newG(base.N, dir, r.Bool())
+			copy(m.IDs, base.IDs)
+			m.Kind = base.Kind + "/thinned"
+			neg := weights != nil && r.Chance(0.25)
+			if neg {
+				weights[l] = -r.PickFloat(0.25, 0.5)
+			}
+			for _, e := range base.Edges() {
+				if r.Chance(0.75) {
+					w := drawWeight(r, scheme)
+					if neg {
+						w = -w
+					}
+					m.Set(e[0], e[1], w)
+				}
+			}
+			layers = append(layers, m)
+		}
+	}
+	cc := &cmCase{layers: layers, weights: weights, multiplex: multiplex, all: r.Bool()}
+	if !multiplex {
+		cc.res = []float64{gammas[r.Intn(4)]}
+	} else {
+		switch r.Intn(3) {
+		case 0:
+			cc.res = nil
+		case 1:
+			cc.res = []float64{gammas[r.Intn(4)]}
+		default:
+			cc.res = make([]float64, depth)
+			for l := range cc.res {
+				cc.res[l] = gammas[r.Intn(4)]
+			}
+		}
+	}
+	return cc
+}
+
+func rndHistory(c *vrt.Ctx) {
+	total := c.Pick(2000, 24000)
+	wl := "rnd-hist"
+	vrt.Parallel(total, func(i int) {
+		r := c.RNG(wl, i)
+		cc := historyCase(r, i)
+		k := newK(c, wl, fmt.Sprintf("%s/%d", wl, i))
+		k.ids = "mixed"
+		checkLouvainHistory(k, cc, r)
 		k.done()
 	})
 	c.Count("cases."+wl, int64(total))
